@@ -8,7 +8,7 @@ from harness.execute import execute, S0
 PROPERTY = 'C09'
 RULE = ('Exhaustive grid: operator in {+ - * / % == != < <= > >= and or, unary + - not, is int, is byte, is bool, implicit '
         'byte->int, bool->byte->int, not over every comparison/logic operator, an arithmetic result (+ - *) compared with 0 / 1 / -1 on either side; also with one operand written as a literal in the source, '
-        'including positive literals beyond the signed range} x operand type combination {int*int, byte*byte, byte*int, int*byte, bool*bool} x all '
+        'including positive literals beyond the signed range; literals outside 0..255 implicitly narrowed into const bytes} x operand type combination {int*int, byte*byte, byte*int, int*byte, bool*bool} x all '
         'ordered pairs from a per-word-size boundary grid (0, +-1, 2, 127/128, 255/256/257, -128/-129, -255/-256, MIN, '
         'MIN+1, MAX, MAX-1 + seeded random values; bytes 0,1,2,127,128,254,255 + random) x usage position {value, recast '
         'to int, if-branch, while-condition, !truth_is_defeat under try/stop, the truth value stored in a bool inside a try body and deciding a later defeat, narrowed to byte and consumed as the index of a byte-array store, narrowed and consumed as a dynamic array length} x word size {2,3,4}. Operands are run-time '
@@ -332,6 +332,38 @@ def check_group(stats, ws, kind, op, ta, tb, position, seed, form='local'):
     return None
 
 
+CONST_BYTE_INITS = [0, 1, 255, 256, 257, 300, 511, 512, -1, -128, -255, -256, 0x1FF, 0x100, 65535, 65536]
+
+
+def check_const_bytes(stats, ws):
+    """`const byte K = <literal outside 0..255>` (implicit narrowing of a literal keeps the low byte) observed as a value, through
+    a cast, as a branch and as a defeat condition, locally, globally and via another global's initialiser."""
+    stmts = []
+    exp = []
+    glob = ''
+    for i, v in enumerate(CONST_BYTE_INITS):
+        lit_ = '(%d)' % v if v < 0 else str(v)
+        b = v & 0xFF
+        glob += 'const byte G%d = %s; byte H%d = G%d;\n' % (i, lit_, i, i)
+        stmts.append('{ const byte K = %s; write(K is int); write(\',\'); write((K is int) + 1); write(\',\'); if (K) { write(\'T\'); } else { write(\'F\'); } '
+                     'if (K < 1) { write(\'z\'); } else { write(\'p\'); } write(G%d is int); write(\',\'); write(H%d is int); '
+                     'try { !truth_is_defeat(K is bool); write(\'N\'); } stop { write(\'D\'); } byte m = %s; write(m is int); write(\';\'); }' % (lit_, i, i, lit_))
+        exp.append('%d,%d,%s%s%d,%d%s%d;' % (b, b + 1, 'T' if b else 'F', 'z' if b < 1 else 'p', b, b, 'D' if b else 'N', b))
+    src = glob + 'empty @is_you() {\n' + '\n'.join('  ' + s_ for s_ in stmts) + '\n}\n'
+    r = execute(src, [], ws=ws, S=S0, budget=5_000_000)
+    stats.evaluated(len(CONST_BYTE_INITS))
+    stats.cls('const_byte_inits', len(CONST_BYTE_INITS))
+    for v in CONST_BYTE_INITS:
+        stats.nt('constbyte:%d:%d' % (v, ws))
+    got = r.out.decode('latin-1')
+    if got != ''.join(exp) or not r.won:
+        parts = got.split(';')
+        bad = [(v, g, e) for v, g, e in zip(CONST_BYTE_INITS, parts, exp) if g + ';' != e][:4]
+        return {'kind': 'constbyte', 'value': [ws], 'signature': 'constbyte',
+                'message': 'ws=%d const byte initialised from literals outside 0..255: (literal, got, expected) %r; flags %r' % (ws, bad, r.flags)}
+    return None
+
+
 def groups():
     out = []
     for op in BIN_ARITH:
@@ -381,6 +413,10 @@ def run_shard(desc, seed, tier):
     stats = Stats()
     EXTRA[0] = 6 if tier == 'quick' else 40
     gs = groups()
+    if k == 0:
+        v = check_const_bytes(stats, ws)
+        if v:
+            stats.violation(v)
     for gi, (kind, op, ta, tb) in enumerate(gs):
         if gi % n != k:
             continue
@@ -406,6 +442,9 @@ def run_shard(desc, seed, tier):
 
 
 def replay(case):
+    if case.get('kind') == 'constbyte':
+        v = check_const_bytes(Stats(), case['value'][0])
+        return v['message'] if v else None
     if case.get('kind') == 'oplit':
         ws, kind, op, ta, tb, position = case['value']
         v = check_lit_group(Stats(), ws, kind, op, ta, tb, position, 1)
